@@ -8,6 +8,7 @@ import Propka.Model.HiddenDriver
 import Propka.Model.ProfilesDriver
 import Propka.Model.DetsDriver
 import Propka.Model.EnergyDriver
+import Propka.Model.Protonate
 /-! Line-protocol driver: one request per line `<module> <args…>`, one response line each. -/
 open Propka
 
@@ -24,6 +25,7 @@ def dispatch (ws : List String) : String :=
   | "dets" :: r => Dets.handle r
   | "energy" :: r => Energy.handle r
   | "iter" :: r => Iter.handle r
+  | "prot" :: r => Prot.handle r
   | "topup" :: r => TopUp.handle r
   | ["ping"] => "pong"
   | _ => "bad-op"
